@@ -7,6 +7,7 @@ an executor that completes its tasks in the case's completion order; `TZ` + `tim
 """
 import calendar
 import concurrent.futures
+import itertools
 import logging
 import math
 import os
@@ -210,27 +211,36 @@ class C04(Prop):
     anchored = ["src/pewlib/io/csv.py"]
     cases = {"quick": 1500, "thorough": 40000}
     rule = ("synthetic directories in the Nu / iCap LDR / TOFWERK / generic layouts (1..8 line files, numbers 9/10/11/100, "
-            "unequal lengths, 1..4 elements, distractor / hidden / directory entries, shuffled listing, shuffled task "
-            "completion, 5 time zones with stamps around DST transitions, explicit and auto-detected option; 40% of the cases "
+            "plain / zero-padded / per-file (mixed) padding of the index, LDR sample names with digits and the lines of two "
+            "samples in one directory, unequal lengths, 1..4 elements, distractor / hidden / directory entries, shuffled "
+            "listing, shuffled task completion (targeted: EVERY completion order of directories of up to 5 files - thorough, "
+            "x 5 time zones; up to 3 files - quick), 5 time zones with stamps around DST transitions, month/day written with "
+            "one digit, a few stamps time.strptime rejects (import raises: judged against the model only), explicit and "
+            "auto-detected option; 40% of the cases "
             "with an explicit option object first import one or two primer directories of the same layout - other line "
             "count / element set / helper columns, element or helper columns empty in every line, or the real directory "
             "itself - through the SAME option instance, and the import that follows is compared with the specification "
             "of the real directory alone) plus batches of "
-            "file names for the pattern matchers; non-trivial = at least two line files or a distractor; distinct by case hash")
+            "file names on which the model's matchers, sort keys, filter and sort are compared with the real option.regex / "
+            "option.sortkey (TOFWERK: under 5 TZ settings) / option.filter / option.sort of the four options; non-trivial = at least two line files or a distractor; distinct by case hash")
     trusted = [
         "np.genfromtxt parses a written table to the values float(token) (NaN for unparsable/empty tokens) and names the "
         "fields as the writer expects (spaces -> '_', quotes deleted for TOFWERK, empty -> f0); np.stack/np.delete/"
         "rfn.drop_fields/np.median/np.diff/np.round as documented",
-        "Python: sorted is stable, re / pathlib.PurePath.stem / str.isdigit / time.strptime / calendar.timegm on ASCII names "
-        "(the Lean matchers, stem, digit key and timegm are compared with them on generated names in every run)",
+        "Python: sorted is stable, re / pathlib.PurePath.stem / str.isdigit / str.lower / tuple and Path comparison / "
+        "time.strptime / calendar.timegm on ASCII names (the Lean matchers, stem, keys, filter and sort are compared with the "
+        "real option objects on generated names in every run)",
         "a future returns the result of its own task; the substituted executor completes tasks in the chosen order",
         "scantime/spotsize: exact rational evaluation; a value whose unrounded exact value is within 1e-6 of a rounding "
         "tie is not compared (float evaluation error of diff/median/scale is far below that)",
     ]
     assumptions = [
-        "file names are ASCII; all line files of one directory share their header, their LDR prefix and their "
-        "zero-padding style (one acquisition); every line has at least two samples",
-        "TOFWERK stamps have the strict form YYYY.MM.DD-HHhMMmSSs and are valid dates",
+        "file names are ASCII and no two differ in letter case only; all line files of one directory share their header; "
+        "every line has at least two samples; Nu names are exactly line_<digits>.csv (nothing after .csv)",
+        "acquisition order of an LDR directory that holds several sample names: grouped by lower-cased sample name (string "
+        "order), then numeric line index - the order the code documents; the property text only names the line index",
+        "TOFWERK: a directory with a stamp that time.strptime rejects (import raises ValueError) or with a leap-second stamp "
+        "(seconds 60/61) is compared with the model only, not with the acquisition-order specification",
         "an empty selection (no accepted file) is not compared (the property does not say what happens)",
         "histories: the result of importing a directory does not depend on earlier imports made with the same option "
         "object; what the earlier (primer) imports return or raise is not judged",
@@ -245,7 +255,9 @@ class C04(Prop):
     def gen_names(self, rng):
         alphabet = "line_LDR0123456789.csvCSVhms-_ xA.."
         pieces = ["line_", "LINE_", "_ldr_", "_LDR_", ".csv", ".CSV", ".Csv", "10", "9", "007", "2021.03.28", "-02h30m00s", "-10H10M10S",
-                  "IMG_", "a", "_", ".", "-", " ", "x.y", ".bak", "csv", "1", "2021.1.5", "h", "m", "s"]
+                  "IMG_", "a", "_", ".", "-", " ", "x.y", ".bak", "csv", "1", "2021.1.5", "h", "m", "s", "s1", "S1", "B", "009",
+                  "2021.02.30", "2021.13.01", "2020.02.29", "2021.6.30", "-23h59m60s", "-24h00m00s", "-10h60m00s", "0000.01.01",
+                  "2021.010.1", "x_", "_ldr_10.csv", "_ldr_009.csv", "line_007.csv"]
         names = []
         for _ in range(40):
             k = rng.random()
@@ -262,6 +274,14 @@ class C04(Prop):
             if nm and "/" not in nm and nm not in (".", ".."):
                 names.append(nm)
         return {"kind": "names", "names": names}
+
+    def fixed_dir(self, vendor, names, seed, tz="UTC", feats=()):
+        """a directory with the given line-file names (in listing order), tables drawn from a fixed seed"""
+        rng = random.Random(seed)
+        tables, f2 = gen_csvdir.make_tables(rng, vendor, len(names))
+        entries = [{"name": nm, "type": "file", "role": "line", "eol": "\n", **t} for nm, t in zip(names, tables)]
+        return {"kind": "load", "vendor": vendor, "auto": False, "tz": tz, "pi": list(reversed(range(len(names)))),
+                "entries": entries, "gen_features": sorted(set(list(feats) + f2))}
 
     def targeted(self, tier):
         import random
@@ -289,6 +309,37 @@ class C04(Prop):
                     if c["vendor"] == vendor and not c["auto"] and want in c["gen_features"] and "k1" not in c["gen_features"]:
                         break
                 yield c
+        # the LDR key repaired by 0a523e4 (all digits of the stem -> sample name, integer index): mixed zero padding,
+        # digits in the sample name, the lines of two samples, one sample in two letter cases; Nu with mixed padding
+        for vendor, names, feats in (
+                ("ldr", ["s1_ldr_10.csv", "s1_ldr_009.csv"], ["mixed-padding", "prefix-digits"]),
+                ("ldr", ["s1_ldr_10.csv", "s1_ldr_9.csv", "s1_ldr_011.csv", "s1_ldr_0100.csv"], ["mixed-padding", "prefix-digits"]),
+                ("ldr", ["s2_ldr_1.csv", "s1_ldr_10.csv", "s1_ldr_9.csv", "s2_ldr_02.csv", "s10_ldr_3.csv"], ["two-samples", "prefix-digits"]),
+                ("ldr", ["b_LDR_2.csv", "B_ldr_10.CSV", "a_ldr_11.csv", "b_ldr_009.csv"], ["two-samples", "sample-case-mix", "mixed-padding"]),
+                ("ldr", ["a_ldr_1_ldr_10.csv", "a_ldr_1_ldr_9.csv", "a_ldr_2.csv"], ["two-samples", "prefix-digits"]),
+                ("nu", ["line_10.csv", "line_007.csv", "LINE_9.CSV", "line_0100.csv"], ["mixed-padding"]),
+                ("nu", ["line_010.csv", "line_9.csv"], ["mixed-padding"])):
+            for rev in (False, True):
+                yield self.fixed_dir(vendor, list(reversed(names)) if rev else names, f"C04-targeted-pad-{names}", feats=feats + ["lex!=num"])
+        # a stamp time.strptime rejects: the import raises (compared with the model); one-digit month and day
+        yield self.fixed_dir("tofwerk", ["IMG_2021.02.30-10h10m10s.csv", "IMG_2021.02.28-10h10m10s.csv"], "C04-targeted-bad", feats=["invalid-stamp"])
+        yield self.fixed_dir("tofwerk", ["IMG_2021.06.30-23h59m60s.csv", "IMG_2021.07.01-00h00m00s.csv"], "C04-targeted-leap", feats=["leap-second-stamp"])
+        yield self.fixed_dir("tofwerk", ["IMG_2021.10.2-10h10m10s.csv", "IMG_2021.9.30-10h10m10s.csv", "IMG_2021.09.3-10h10m10s.csv"],
+                             "C04-targeted-short", feats=["short-date-fields"])
+        # EVERY completion order of the reader tasks of one directory per layout and size
+        nmax, zones = (5, gen_csvdir.ZONES) if tier == "thorough" else (3, ["UTC"])
+        for vendor in gen_csvdir.VENDORS:
+            for n in range(1, nmax + 1):
+                rng = random.Random(f"C04-targeted-allorders-{vendor}-{n}")
+                c = gen_csvdir.generate(rng, tier)
+                while (c["vendor"] != vendor or sum(e["role"] == "line" for e in c["entries"]) != n
+                       or {"invalid-stamp", "leap-second-stamp"} & set(c["gen_features"])):
+                    c = gen_csvdir.generate(rng, tier)
+                c.pop("primers", None)
+                c["gen_features"] = sorted(set(c["gen_features"]) | {"all-completion-orders"})
+                for tz in zones:
+                    for pi in itertools.permutations(range(n)):
+                        yield {**c, "tz": tz, "pi": list(pi)}
         # the DST defect repaired by 61edfa9: a stamp inside the spring gap and one shortly after it
         for tz, date, a, b in (("Europe/Berlin", "2021.03.28", "02h30m00s", "03h10m00s"),
                                ("America/New_York", "2021.03.14", "02h45m10s", "03h05m00s"),
@@ -358,7 +409,7 @@ class C04(Prop):
                 impl = impl_result(data, params)
             except Exception as e:
                 impl = {"raises": type(e).__name__, "msg": str(e)[:200]}
-        if "msg" in impl and impl["raises"] == model.get("raises") == spec.get("raises"):
+        if "msg" in impl and impl["raises"] == model.get("raises"):
             impl = {"raises": impl["raises"]}
         impl, model, spec = blank(impl, und), blank(model, und), blank(spec, und)
 
@@ -377,45 +428,93 @@ class C04(Prop):
             feats = {f for f in feats if not f.startswith(("primer-", "two-primers"))}
         empty = not lines
         nontrivial = n >= 2 or any(e["role"] != "line" for e in entries)
+        if not rep["keys_defined"]:
+            feats.add("import-raises-on-stamp")
+        if not (rep["keys_defined"] and rep["valid_stamps"]):
+            # a stamp that is no valid date / a leap second: the property does not order such files; pewlib is still
+            # compared with the model (which says ValueError exactly when time.strptime rejects a stamp)
+            return outcome(impl, model, spec, spec_ok=True, undetermined=empty, hyp=False, features=feats if nontrivial else [])
         return outcome(impl, model, spec, undetermined=empty, hyp=rep["hyp"], features=feats if nontrivial else [])
 
     def eval_names(self, case, ctx):
+        """the model's matchers, keys, filter and sort against the real option objects, name by name and on the batch"""
         import pewlib.io.csv as pcsv
 
         names = case["names"]
         rep = ctx.driver.call("c04.names", names=names)["model"]
+        srt = ctx.driver.call("c04.sort", names=names)["model"]
         opts = {"nu": pcsv.NuOption(), "ldr": pcsv.ThermoLDROption(), "tofwerk": pcsv.TofwerkOption(), "generic": pcsv.GenericOption()}
+        base = pathlib.Path("/nonexistent-c04-dir")
         impl, model, feats = [], [], set()
-        for nm, r in zip(names, rep):
-            i, m = {"name": nm}, {"name": nm}
+
+        def real_key(o, nm):
+            try:
+                k = o.sortkey(base / nm)
+            except ValueError:
+                return {"raises": "ValueError"}
+            if isinstance(k, tuple):
+                return [k[0], int(k[1])]
+            return int(k)
+
+        old_tz = os.environ.get("TZ")
+        try:
+            for nm, r in zip(names, rep):
+                i, m = {"name": nm}, {"name": nm}
+                for v, o in opts.items():
+                    rx = getattr(o, "regex", None)
+                    rx = rx if isinstance(rx, re.Pattern) else re.compile(PATTERNS[v], re.IGNORECASE)
+                    mt = rx.match(nm)
+                    i[v] = mt is not None
+                    m[v] = r[v] is not None and r[v] is not False
+                    if mt is not None:
+                        feats.add("match:" + v)
+                    if v == "tofwerk" and mt is not None and mt.re.groups >= 1:
+                        i["group"], m["group"] = mt.group(1).lower(), (r[v] or "").lower()
+                i["hidden"], m["hidden"] = nm.startswith("."), r["hidden"]
+                i["stem"], m["stem"] = pathlib.PurePosixPath(nm).stem, r["stem"]
+                if i["nu"]:
+                    i["nukey"], m["nukey"] = real_key(opts["nu"], nm), r["numkey"]
+                # the LDR key of every name (also of names its pattern rejects: the fallback branch)
+                i["ldrkey"] = real_key(opts["ldr"], nm)
+                m["ldrkey"] = ([r["ldrparts"]["sample"], r["ldrparts"]["index"]] if r["ldrparts"] is not None else ["", r["numkey"]])
+                # the same key in the encoding the model sorts with: code points, -1, index
+                if isinstance(i["ldrkey"], list):
+                    i["ldrkey_encoded"], m["ldrkey_encoded"] = [ord(ch) for ch in i["ldrkey"][0]] + [-1, i["ldrkey"][1]], r["ldrkey"]
+                    feats.add("ldr-key:" + ("indexed" if r["ldrparts"] is not None else "fallback"))
+                if i["tofwerk"]:
+                    # the real TofwerkOption.sortkey under every zone of the generator: one value, the model's
+                    want = r["timegm"] if r["strptime_ok"] else {"raises": "ValueError"}
+                    i["tofwerk_key"], m["tofwerk_key"] = {}, {}
+                    for tz in gen_csvdir.ZONES:
+                        os.environ["TZ"] = tz
+                        time.tzset()
+                        i["tofwerk_key"][tz], m["tofwerk_key"][tz] = real_key(opts["tofwerk"], nm), want
+                    feats.add("stamp" if r["strptime_ok"] else "stamp-rejected")
+                    if r["strptime_ok"] and not r["valid_stamp"]:
+                        feats.add("stamp-leap-second")
+                impl.append(i)
+                model.append(m)
+            # option.filter / option.sort on the whole batch
+            paths = [base / nm for nm in names]
+            bi, bm = {"name": "<batch>"}, {"name": "<batch>"}
             for v, o in opts.items():
-                rx = getattr(o, "regex", None)
-                rx = rx if isinstance(rx, re.Pattern) else re.compile(PATTERNS[v], re.IGNORECASE)
-                mt = rx.match(nm)
-                i[v] = mt is not None
-                m[v] = r[v] is not None and r[v] is not False
-                if mt is not None:
-                    feats.add("match:" + v)
-                if v == "tofwerk" and mt is not None and mt.re.groups >= 1:
-                    i["group"], m["group"] = mt.group(1).lower(), (r[v] or "").lower()
-            i["hidden"], m["hidden"] = nm.startswith("."), r["hidden"]
-            i["stem"], m["stem"] = pathlib.PurePosixPath(nm).stem, r["stem"]
-            if i["nu"] or i["ldr"]:
+                kept = o.filter(paths)
+                bi[v + ".filter"], bm[v + ".filter"] = [q.name for q in kept], srt[v]["filter"]
                 try:
-                    i["numkey"] = int((opts["nu"] if i["nu"] else opts["ldr"]).sortkey(pathlib.Path(nm)))
-                    m["numkey"] = r["numkey"]
-                except AttributeError:
-                    pass
-            if r["stamp"]:
-                y, mo, dd, hh, mi, ss = r["stamp"]
-                try:
-                    st = time.strptime(f"{y:04d}.{mo:02d}.{dd:02d}-{hh:02d}h{mi:02d}m{ss:02d}s", "%Y.%m.%d-%Hh%Mm%Ss")
-                    i["timegm"], m["timegm"] = calendar.timegm(st), r["timegm"]
-                    feats.add("stamp")
+                    bi[v + ".sort"] = [q.name for q in o.sort(kept)]
                 except ValueError:
-                    pass  # invalid date: outside the modelled stamps
-            impl.append(i)
-            model.append(m)
+                    bi[v + ".sort"] = {"raises": "ValueError"}
+                bm[v + ".sort"] = srt[v]["sort"]
+                if len(kept) >= 2 and isinstance(bi[v + ".sort"], list) and bi[v + ".sort"] != bi[v + ".filter"]:
+                    feats.add("sort-reorders:" + v)
+            impl.append(bi)
+            model.append(bm)
+        finally:
+            if old_tz is None:
+                os.environ.pop("TZ", None)
+            else:
+                os.environ["TZ"] = old_tz
+            time.tzset()
         # the matchers are part of the model, not of the property: only the correspondence is judged here
         return outcome(impl, model, impl, features=feats | {"names"})
 
